@@ -1,3 +1,24 @@
+//! Artifact-level checks over accepted programs: C09 (valid GraphQL), C11 (normalization AST =
+//! operation), C15 (independence of arrangement), C25 (refetch references), C26 (persisted
+//! documents), C27 (TypeScript types).
+mod c09;
+mod c11;
+mod c15;
+mod c25;
+mod c26;
+mod c27;
+mod driver;
+mod ops;
+
 fn main() {
-    vcore::inconclusive("artcheck: not built yet");
+    let args = vcore::parse_args();
+    match args.property.as_str() {
+        "C09" => c09::run(&args),
+        "C11" => c11::run(&args),
+        "C15" => c15::run(&args),
+        "C25" => c25::run(&args),
+        "C26" => c26::run(&args),
+        "C27" => c27::run(&args),
+        other => vcore::inconclusive(&format!("artcheck: {other} not built yet")),
+    }
 }
